@@ -236,6 +236,20 @@ def _x_classes_g1(env):
         x += 1
     for Q in zcash.g1_points_with_y([zcash.HALF, zcash.HALF + 1, zcash.HALF - 1, zcash.HALF + 2])[:2]:
         xs.append(("x(y at sign boundary)", Q[0]))
+    # coordinates whose leading byte equals the leading byte of p (0x1a): the largest on-curve
+    # x below p and the smallest on-curve x at or above 0x1a * 2^376; and just below that boundary
+    x = P - 1
+    while not E.lift_x(x):
+        x -= 1
+    xs.append(("largest on-curve x < p", x))
+    x = 0x1A << 376
+    while not E.lift_x(x):
+        x += 1
+    xs.append(("smallest on-curve x >= 0x1a<<376", x))
+    x = (0x1A << 376) - 1
+    while not E.lift_x(x):
+        x -= 1
+    xs.append(("largest on-curve x < 0x1a<<376", x))
     return xs
 
 
@@ -322,6 +336,29 @@ def _word_classes_g2(env):
     }
     for Q in y0:
         seconds_for["x.c1(y.c1=0 point)"] = [("matching", Q[0][0])]
+    # coordinates with the leading byte of p in either word, on the curve by construction
+    def on_curve_near(fix_c0, start, step):
+        v = start
+        while True:
+            x = (fix_c0, v) if fix_c0 is not None else None
+            if E.lift_x(x):
+                return v
+            v += step
+
+    c1_hi = on_curve_near(1, P - 1, -1)          # x = 1 + c1*i, c1 the largest below p
+    c1_b = on_curve_near(2, 0x1A << 376, 1)      # smallest c1 at or above 0x1a<<376
+    firsts.append(("largest c1 < p (x.c0 = 1)", c1_hi))
+    firsts.append(("smallest c1 >= 0x1a<<376 (x.c0 = 2)", c1_b))
+    seconds_for["largest c1 < p (x.c0 = 1)"] = [("matching", 1)]
+    seconds_for["smallest c1 >= 0x1a<<376 (x.c0 = 2)"] = [("matching", 2)]
+    # and in the second word: x = c0 + 1*i with c0 at the boundaries
+    v = P - 1
+    while not E.lift_x((v, 1)):
+        v -= 1
+    w = 0x1A << 376
+    while not E.lift_x((w, 1)):
+        w += 1
+    seconds_for["1"] = seconds_for["1"] + [("largest on-curve c0 < p", v), ("smallest on-curve c0 >= 0x1a<<376", w)]
     generic = [("0", 0), ("1", 1), ("p-1", P - 1), ("p", P), ("p+1", P + 1), ("2^381-1", (1 << 381) - 1),
                ("flag-a", G[0][0] | (1 << 381)), ("flag-b", G[0][0] | (1 << 382)), ("flag-c", G[0][0] | (1 << 383)),
                ("all-flags", G[0][0] | (7 << 381)), ("only-flag-c", 1 << 383)]
@@ -407,7 +444,7 @@ def run(ctx):
         "compress_G1 is only given curve points (DESIGN 7 #9)",
     ]
     q = ctx.quick
-    ctx.bounds = {"flags": "all 8 combinations", "G1_x_classes": 15, "G2_first_word_classes": 9,
+    ctx.bounds = {"flags": "all 8 combinations", "G1_x_classes": 18, "G2_first_word_classes": 11,
                   "G2_second_word_classes": "11 generic + matching/mismatching",
                   "bit_flips": "every 8th bit of 1 encoding per group" if q else "all bits of 3 encodings per group"}
     tasks = []
@@ -415,8 +452,8 @@ def run(ctx):
         for lo in range(step):
             tasks.append(("points", {"group": group, "lo": lo, "step": step}))
     tasks.append(("words_g1", {}))
-    for lo in range(9):
-        tasks.append(("words_g2", {"lo": lo, "step": 9}))
+    for lo in range(11):
+        tasks.append(("words_g2", {"lo": lo, "step": 11}))
     for group in ("E2", "E1"):
         for k in range(1 if q else 3):
             nt = 4 if q else 8
